@@ -254,6 +254,8 @@ def st_prog(draw, max_depth=3):
         shape = [n, n]
     elif mode == 1:
         shape = [draw(st.integers(1, 18))]
+        if draw(st.sampled_from([False] * 9 + [True])):
+            shape = [draw(st.integers(100, 700))]       # a long vector (sort-based / cumulative code paths)
         top_stack = depth > 0 and draw(st.booleans())
     else:
         shape = draw(A.shapes(1, 3, 1, 5, 30))
